@@ -692,6 +692,48 @@ func runExtCmp(c *Case, tr *Trace) {
 	if consumer == "json" {
 		tr.NumTab = append(numTabFor(a.out), numTabFor(b.out)...)
 	}
+	// sub.split: the document the extended run wrote is read back by the library's own parser in two or three pieces
+	tr.Extra["pev"], tr.Extra["perr"] = []Event{}, "none"
+	if sp, ok := c.Sub["split"].(float64); ok && a.errAt == 0 && len(a.out) >= 2 {
+		if api, isFmt := formats[consumer]; isFmt {
+			ev, err := parseInPieces(api, a.out, int(sp))
+			cl, _ := errClass(err)
+			tr.Extra["pev"], tr.Extra["perr"] = ev, cl
+		}
+	}
+}
+
+// parseInPieces hands doc to a parser object in two or three Write calls (cut position k; odd k adds a one-byte
+// piece right after the cut), overwrites every piece after its Write, and signals the end of input.
+func parseInPieces(api *fmtAPI, doc []byte, sp int) ([]Event, error) {
+	rec := &RefRecorder{}
+	k := 1 + sp%(len(doc)-1)
+	pieces := [][]byte{doc[:k], doc[k:]}
+	if sp%2 == 1 && k+1 < len(doc) {
+		pieces = [][]byte{doc[:k], doc[k : k+1], doc[k+1:]}
+	}
+	p := api.newParser(rec)
+	var err error
+	for _, pc := range pieces {
+		buf := exact(pc)
+		_, err = p.Write(buf)
+		for i := range buf {
+			buf[i] = 0xAA
+		}
+		if err != nil {
+			break
+		}
+	}
+	if err == nil {
+		if f, has := p.(interface{ VerifFinalize() error }); has {
+			err = f.VerifFinalize()
+		}
+	}
+	ev := rec.Events
+	if ev == nil {
+		ev = []Event{}
+	}
+	return ev, err
 }
 
 func vds(v []VD) []VD {
